@@ -85,9 +85,19 @@ def check_case(case):
             n = M.Native(cm, q, allow24=M.dkw_all_zero(dkw))
             problems = list(n.problems)
             if not int_class:
-                # float boundary: a field may touch its upper bound within 1us
+                # float boundary: a field may sit ON its upper bound only when
+                # the exact result lies within 1e-9 s below a whole minute
+                # (x - tiny + 60.0 rounds to 60.0 in binary floats); anything
+                # further from the boundary must have been carried
+                local = exp + M.kw_tz(kw)
+                to_minute = (-local) % 60
+                near = to_minute <= Fraction(1, 10 ** 9) or \
+                    60 - to_minute <= Fraction(1, 10 ** 9)
                 kept = []
                 for pr in problems:
+                    if not near:
+                        kept.append(pr)
+                        continue
                     if ((pr.startswith("second") and n.s is not None and
                          abs(n.s - 60) <= 1e-6) or
                         (pr.startswith("minute") and n.m is not None and
